@@ -21,7 +21,7 @@ def hellinger(x, y):
     elif l1_norm_x == 0 or l1_norm_y == 0:
         return 1.0
     else:
-        return np.sqrt(1 - result / np.sqrt(l1_norm_x * l1_norm_y))
+        return np.sqrt(max(1 - result / np.sqrt(l1_norm_x * l1_norm_y), 0.0))
 
 
 @numba.njit()
